@@ -85,7 +85,11 @@ where
         let channels = self.nbr_channels();
         let mut wave_out = Vec::with_capacity(channels);
         for chan in 0..channels {
-            let chan_out = if active_channels_mask.map(|mask| mask[chan]).unwrap_or(true) {
+            // A mask of the wrong length is reported by process_into_buffer.
+            let chan_out = if active_channels_mask
+                .and_then(|mask| mask.get(chan).copied())
+                .unwrap_or(true)
+            {
                 vec![T::zero(); frames]
             } else {
                 vec![]
@@ -183,7 +187,11 @@ where
         let channels = self.nbr_channels();
         let mut wave_out = Vec::with_capacity(channels);
         for chan in 0..channels {
-            let chan_out = if active_channels_mask.map(|mask| mask[chan]).unwrap_or(true) {
+            // A mask of the wrong length is reported by process_into_buffer.
+            let chan_out = if active_channels_mask
+                .and_then(|mask| mask.get(chan).copied())
+                .unwrap_or(true)
+            {
                 vec![T::zero(); frames]
             } else {
                 vec![]
@@ -492,7 +500,7 @@ pub(crate) fn validate_buffers<T, Vin: AsRef<[T]>, Vout: AsMut<[T]>>(
     if mask.len() != channels {
         return Err(ResampleError::WrongNumberOfMaskChannels {
             expected: channels,
-            actual: wave_in.len(),
+            actual: mask.len(),
         });
     }
     for (chan, wave_in) in wave_in.iter().enumerate().filter(|(chan, _)| mask[*chan]) {
